@@ -19,7 +19,7 @@ import math
 from mc import core
 
 LEVEL = "model_checking"
-TECHNIQUE = "explicit-state / stateless exploration of the real adaptive loop under a scripted environment (all error profiles, all answer sequences up to a deviation bound, BFS with state hashing), trace invariants + reference-protocol conformance"
+TECHNIQUE = "explicit-state / stateless exploration of the real adaptive loop under a scripted environment (all error profiles, all answer sequences up to a deviation bound, BFS with state hashing), trace invariants + reference-protocol conformance; plus a TLA+ model explored by TLC whose every edge is replayed against the implementation"
 TIMEOUT_S = {"quick": 1500, "thorough": 10800}
 
 VALUES = [1 / 16, 1 / 4, 1.0, 4.0]
@@ -583,7 +583,8 @@ ENGINE = "E1 xstate"
 LEVEL_TEXT = ("Bounded exhaustive exploration of the real adaptive loop: every admissible-step profile with <=3 pieces on a dyadic lattice x "
               "every checkpoint layout x dt0 x clip x eps x 9 controllers x 3 entry points, every answer sequence within a deviation bound, and "
               "a complete BFS of the reachable canonical states of RejectionLoop.loop under a finite-lattice controller. All eight clauses of the "
-              "statement are trace invariants; integral/scripted-controller runs must additionally equal the reference protocol event for event.")
+              "statement are trace invariants; integral/scripted-controller runs must additionally equal the reference protocol event for event. "
+              "Independently, tla/AdaptiveLoop.tla is model-checked by TLC (invariants + termination) and every edge of its state graph is replayed on the real loop.")
 LEVEL_NOTE = ("Trusted: jax.disable_jit() executes lax control flow with the same semantics as the compiled program; the scripted solver models "
               "solver states by (t, num_steps, uid). Times are dyadic (+eps offsets); the PI controller is compared with its formula at 1e-12 relative "
               "tolerance rather than bitwise.")
